@@ -1,4 +1,5 @@
-(* C17 model driver: same line protocol as harness/drivers/c17_driver.c; at the
+(* C17 model driver: same line protocol as harness/drivers/c17_driver.c; writes go
+   through r_log / t_log (format, truncate at code_msg_max_len, write); at the
    end of a case the model's file map is printed as the same canonical dump. *)
 let simple_prefix = "INFO|c.c:1 - "
 
@@ -76,14 +77,14 @@ let handle (lines : string list) : unit =
       (match r.h, args with
        | None, _ -> print_endline "w ignored"
        | Some h, [ id; len ] ->
-         let (h', n) = r_write h { m_id = z_of_string id; m_len = z_of_string len; m_ts = Z0 } in
+         let (h', n) = r_log code_msg_max_len h { m_id = z_of_string id; m_len = z_of_string len; m_ts = Z0 } in
          st := Rot { r with h = Some h' }; Printf.printf "w %s\n" (string_of_z n)
        | Some _, _ -> print_endline "w bad")
     | Trot t, "w" :: args ->
       (match t.th, args with
        | None, _ -> print_endline "w ignored"
        | Some h, [ id; len; ts; clock ] ->
-         let (h', n) = t_write h (z_of_string clock) { m_id = z_of_string id; m_len = z_of_string len; m_ts = z_of_string ts } in
+         let (h', n) = t_log code_msg_max_len h (z_of_string clock) { m_id = z_of_string id; m_len = z_of_string len; m_ts = z_of_string ts } in
          st := Trot { t with th = Some h' }; Printf.printf "w %s\n" (string_of_z n)
        | Some _, _ -> print_endline "w bad")
     | _, _ -> print_endline "?") lines;
